@@ -68,10 +68,10 @@ def witness_cases():
     http = {"datasets": ["a"], "ops": [
         # the same feed through the real HTTP handlers: POST cut into batches of 10, GET changes forward / latest-only / reverse
         {"op": "hbatch", "ds": "a", "ents": many},
-        {"op": "hchanges", "ds": "a", "reader": "h1", "limit": 4}, {"op": "hchanges", "ds": "a", "reader": "h1", "limit": 0},
+        {"op": "hchanges", "ds": "a", "reader": "h1", "limit": 4, "ld": True}, {"op": "hchanges", "ds": "a", "reader": "h1", "limit": 0, "ld": True},
         {"op": "hbatch", "ds": "a", "ents": many[3:14]},
         {"op": "hchanges", "ds": "a", "reader": "h1", "limit": 3}, {"op": "hchanges", "ds": "a", "reader": "h2", "limit": 7, "latest": True},
-        {"op": "hchanges", "ds": "a", "reader": "hr", "reverse": True, "limit": 6}, {"op": "hchanges", "ds": "a", "reader": "hr", "reverse": True, "limit": 50},
+        {"op": "hchanges", "ds": "a", "reader": "hr", "reverse": True, "limit": 6, "ld": True}, {"op": "hchanges", "ds": "a", "reader": "hr", "reverse": True, "limit": 50},
         {"op": "hchanges", "ds": "a", "since": 40, "limit": 2}] + fin}
     return races + [http] + [
         # F02a: identical element repeated inside one batch (new id)
@@ -111,8 +111,8 @@ def gen_case(rng, nw, rich=True):
         ops.append(w)
         if rng.chance(1, 5):
             d = sc.DS_NAMES[rng.below(nds)]
-            ops.append({"op": "hchanges", "ds": d, "reader": "hx", "limit": rng.choice([1, 2, 0]), "latest": rng.chance(1, 3)})
-            ops.append({"op": "hchanges", "ds": d, "reader": "hy", "reverse": True, "limit": rng.choice([1, 2, 0])})
+            ops.append({"op": "hchanges", "ds": d, "reader": "hx", "limit": rng.choice([1, 2, 0]), "latest": rng.chance(1, 3), "ld": rng.chance(1, 2)})
+            ops.append({"op": "hchanges", "ds": d, "reader": "hy", "reverse": True, "limit": rng.choice([1, 2, 0]), "ld": rng.chance(1, 2)})
         if rng.chance(1, 5):
             # the JS binding GetDatasetChanges (latest-only), carrying its token
             ops.append({"op": "jschanges", "ds": sc.DS_NAMES[rng.below(nds)], "reader": "jr", "limit": rng.choice([1, 2, 0])})
